@@ -10,7 +10,9 @@ import os, sys, hashlib, subprocess, glob, argparse, concurrent.futures, shutil,
 VERIF = os.path.dirname(os.path.dirname(os.path.abspath(__file__)))
 CXX = os.environ.get("VERIF_CXX", "g++")
 
-COMMON = ["-fopenmp", "-DNDEBUG", "-DPOMEROL_VERIF", "-Wno-unused-local-typedefs", "-w", "-fPIC"]
+# EIGEN_DONT_PARALLELIZE: Eigen's own OpenMP GEMM spin-waits between threads and cannot run on SimGOMP's serialised logical
+# threads; it is only reachable for blocks larger than about 47x47 (beyond the models explored) - see sim/simgomp.cpp
+COMMON = ["-fopenmp", "-DNDEBUG", "-DPOMEROL_VERIF", "-DEIGEN_DONT_PARALLELIZE", "-Wno-unused-local-typedefs", "-w", "-fPIC"]
 VARIANTS = {
     # as shipped (-O2 -g -DNDEBUG -fopenmp) plus sanitizers; O1 keeps ASan reports precise and the build fast
     "san":   ["-O1", "-g1", "-fsanitize=address,undefined", "-fno-omit-frame-pointer"],
